@@ -678,17 +678,28 @@ def _check_search_batch(run, scope, name, refs, gids, iters, mr, sol, exact, det
         winners = {_search_key(name, a, len(a)) for (_k, _r, v, a) in cands if v >= top - tol}
         if key is None or key not in winners:
             everyone = {_search_key(name, a, len(a)): (k, r, v) for (k, r, v, a) in reversed(cands)}
+            stale = [(k, r) for (k, r, v, a) in cands
+                     if v >= top - tol and stored[:len(a)] == [int(x) for x in a] and any(stored[len(a):])]
             if key is not None and key in everyone:
                 k, r, v = everyone[key]
                 constraint = "not_argmax"
                 why = f"they are rollout row {r} of iteration {k}, worth {v!r}"
+            elif stale:
+                k, r = stale[0]
+                T = int(iters[k][0].shape[1])
+                constraint = "stale_tail"
+                why = (f"the first {T} entries are the best rollout (row {r} of iteration {k}, {T} steps) but entries "
+                       f"{stored[T:]} behind them are left over from a longer solution stored earlier")
             else:
                 constraint = "not_a_rollout"
                 why = "they are none of the recorded rollouts" + (" (non-zero padding)" if key is None else "")
             run.violate(scope, "search_best_actions",
                         f"instance {g}: stored solution {stored} does not attain the reported maximum {got!r}: {why}",
                         constraint=constraint, instance=g, stored=stored, reported=got, iter_best=iter_best,
-                        lengths=[int(a.shape[1]) for a, _ in iters], **det)
+                        lengths=[int(a.shape[1]) for a, _ in iters],
+                        stored_objective=ref.objective(_strip_pad(name, _strip(stored, name != "tsp") or [0])),
+                        stored_infeasible=[str(x[0]) for x in ref.violations(_strip(stored, name != "tsp"))][:4],
+                        **det)
             raise StopRun()
         # (3) its objective on the ORIGINAL instance = the reported reward ----------------------------------------
         want = ref.objective(_strip_pad(name, list(key)))
@@ -1310,3 +1321,65 @@ C15.CANARIES = {"symmetric_scale": _canary_symmetric_scale,
                 "padding_dropped": _canary_padding_dropped,
                 "select_min": _canary_select_min,
                 "reward_wrong_rows": _canary_reward_wrong_rows}
+
+
+def _as_training_step_mutant(overwrite_incumbent=False, solution_only_first=False):
+    """ActiveSearch.training_step with one of two regressions of the incumbent bookkeeping."""
+    def training_step(self, batch, batch_idx):
+        import rl4co.models.zoo.active_search.search as S  # its `time` name is the (virtual) clock
+        from rl4co.utils.ops import batchify, unbatchify
+
+        batch_size = batch.shape[0]
+        td_init = self.env.reset(batch)
+        n_aug, n_start, n_runs = (self.augmentation.num_augment, self.env.get_num_starts(td_init),
+                                  self.hparams.num_parallel_runs)
+        td_init = self.augmentation(td_init)
+        td_init = batchify(td_init, n_runs)
+        max_reward = torch.full((batch_size,), -float("inf"), device=batch.device)
+        best_solutions = torch.zeros(batch_size, self.problem_size * 2, device=batch.device, dtype=int)
+        t_start = S.time.time()
+        for i in range(self.hparams.max_iters):
+            out = self.policy(td_init.clone(), env=self.env, decode_type="multistart_sampling", num_starts=n_start)
+            max_reward_iter = out["reward"].max()
+            if max_reward_iter > max_reward:
+                max_reward_idx = out["reward"].argmax()
+                best_solution_iter = out["actions"][max_reward_idx]
+                max_reward = max_reward_iter
+                if i == 0 or not solution_only_first:
+                    best_solutions[0, : best_solution_iter.shape[0]] = best_solution_iter
+            if overwrite_incumbent:
+                max_reward = max_reward_iter
+            reward = unbatchify(out["reward"], (n_runs, n_aug, n_start))
+            ll = unbatchify(out["log_likelihood"], (n_runs, n_aug, n_start))
+            advantage = reward - reward.mean(dim=-1, keepdim=True)
+            loss = -(advantage * ll).mean()
+            opt = self.optimizers()
+            opt.zero_grad()
+            self.manual_backward(loss)
+            self.log_dict({"loss": loss, "max_reward": max_reward, "step": i, "time": S.time.time() - t_start},
+                          on_step=self.log_on_step)
+            if S.time.time() - t_start > self.hparams.max_runtime:
+                break
+        return {"max_reward": max_reward, "best_solutions": best_solutions}
+
+    return training_step
+
+
+def _canary_search_incumbent_overwritten():
+    """ActiveSearch: `max_reward = max_reward_iter` every iteration, not only when it improved (the report
+    is the last iteration's best instead of the best of all iterations)."""
+    from rl4co.models.zoo.active_search.search import ActiveSearch
+
+    return _swap(ActiveSearch, "training_step", _as_training_step_mutant(overwrite_incumbent=True))
+
+
+def _canary_search_solution_not_updated():
+    """ActiveSearch: best_solutions is written in iteration 0 only; later improvements update the reward
+    but keep the first iteration's tour."""
+    from rl4co.models.zoo.active_search.search import ActiveSearch
+
+    return _swap(ActiveSearch, "training_step", _as_training_step_mutant(solution_only_first=True))
+
+
+C15.CANARIES.update({"search_incumbent_overwritten": _canary_search_incumbent_overwritten,
+                     "search_solution_not_updated": _canary_search_solution_not_updated})
